@@ -50,6 +50,11 @@ def build(run: Run):
     run.verify("cli.main", extra_post=cli_faces.check_paths)
     eng.back_edge_hook = None
     run.replayers.append(make_cli_replayer(run))
+    # the ordering clause on the real enum: every ordered pair under every operator (finite domain: exhaustive)
+    SEV = "replay/severity_diff.py: all 36 ordered pairs of severities x the six comparison operators (exhaustive), sorted / max / min"
+    run.replayers.append(companion_replayer(run, "C10", "severity_diff.py", how=SEV, name_fn=lambda f: f"severity_diff:{f['kind']}",
+                                            only=lambda o: "Severity" in o.name))
+    bounded_companion(run, "C10", "severity_diff.py", what=SEV, name_fn=lambda f: f"severity_diff:{f['kind']}")
     # the loader face and the boolean query against the library verdict on concrete files (the same companion as C02's)
     run.replayers.append(companion_replayer(run, "C10", "load_diff.py", name_fn=name_ld, how=LOAD_DIFF,
                                             only=lambda o: o.name.split(":")[0].split(".")[0] in ("loader", "analysis")))
